@@ -1,17 +1,195 @@
 import CnlModel.Rep
 /-!
-# overflow tags (placeholder: native only; the checked tags arrive with C06)
+# overflow tags: `overflow/is_overflow.h`, `builtin_overflow.h`, `custom_operator.h`,
+# `saturated.h`, `throwing.h`, `trapping.h`, `undefined.h`, `native.h`, `polarity.h`
+
+Two detection paths: the compiler intrinsics (`__builtin_*_overflow` followed by a polarity
+deduced from the operands) and the portable predicates.  Every sub-expression of a predicate is
+evaluated with the C semantics core, so undefined behaviour *inside* the overflow test is a
+value of the model.
 -/
 namespace Cnl.Overflow
 
-def binOp (R : RepOps) (tag : OvTag) (op : BinOp) (x y : Num) : Res Num :=
+inductive Path where | builtin | portable
+deriving DecidableEq, Repr
+
+/-- `overflow_digits<T, positive>` / `<T, negative>` -/
+def posDigits (t : IntTy) : Nat := t.digits
+def negDigits (t : IntTy) : Nat := if t.signed then t.digits else 0
+
+def tmax (t : IntTy) : TV := (t, t.max)
+def tlow (t : IntTy) : TV := (t, t.lowest)
+def zero (t : IntTy) : TV := (t, 0)
+def lit (v : Int) : TV := (i32, v)
+
+def rbool (b : Bool) : Res Bool := .ok b
+
+/-- `a && b` with C++ short-circuit evaluation -/
+def andThen (a : Bool) (b : Res Bool) : Res Bool := if a then b else .ok false
+
+/-- the tag's reaction to a detected overflow of the given polarity in result type `T` -/
+def react (tag : OvTag) (pos : Bool) (T : IntTy) : Res TV :=
+  match tag with
+  | .sat => .ok (T, if pos then T.max else T.lowest)
+  | .thr => .throws pos
+  | .trp => .trap pos
+  | .und => .unreachable (if pos then "positive overflow" else "negative overflow")
+  | .nat => .ill "native tag does not react"
+
+/-- `is_overflow<Operator, polarity>` for the binary arithmetic and shift operators -/
+def isOverflowBin (op : BinOp) (pos : Bool) (x y : TV) : Res Bool :=
+  let L := x.1; let R := y.1
+  let T := binResultTy op L R
+  match op, pos with
+  | .add, true =>
+    andThen (decide (max (posDigits L) (posDigits R) + 1 > posDigits T)) <|
+    andThen (cCmp .gt x (zero L)) <| andThen (cCmp .gt y (zero R)) <| do
+      let d ← cBin .sub (tmax T) y
+      pure (cCmp .gt (convert T x) d)
+  | .add, false =>
+    andThen (decide (max (posDigits L) (posDigits R) + 1 > posDigits T)) <|
+    andThen (cCmp .lt x (zero L)) <| andThen (cCmp .lt y (zero R)) <| do
+      let d ← cBin .sub (tlow T) y
+      pure (cCmp .lt (convert T x) d)
+  | .sub, true =>
+    andThen (decide (max (posDigits L) (negDigits R) + 1 > posDigits T)) <|
+    andThen (cCmp .lt y (zero R)) <| do
+      -- lhs > traits::max() + rhs
+      let d ← cBin .add (tmax T) y
+      pure (cCmp .gt x d)
+  | .sub, false =>
+    andThen (decide (max (posDigits L) (posDigits R) + 1 > posDigits T)) <|
+    andThen (cCmp .ge y (lit 0)) <| do
+      let d ← cBin .add (tlow T) y
+      pure (cCmp .lt x d)
+  | .mul, true =>
+    andThen (decide (posDigits L + posDigits R > posDigits T)) <|
+    if cCmp .gt x (zero L) then
+      andThen (cCmp .gt y (zero R)) <| do
+        let q ← cBin .div (tmax T) y
+        pure (cCmp .lt q x)
+    else
+      andThen (cCmp .lt y (zero R)) <| do
+        let q ← cBin .div (tmax T) y
+        pure (cCmp .gt q x)
+  | .mul, false =>
+    andThen (decide (posDigits L + posDigits R > posDigits T)) <|
+    if cCmp .lt x (zero L) then
+      andThen (cCmp .gt y (zero R)) <| do
+        let q ← cBin .div (tlow T) y
+        pure (cCmp .gt q x)
+    else
+      andThen (cCmp .lt y (zero R)) <| andThen (cCmp .ne y (lit (-1))) <| do
+        let q ← cBin .div (tlow T) y
+        pure (cCmp .lt q x)
+  | .div, true =>
+    if L.signed then andThen (cCmp .eq y (lit (-1))) (rbool (cCmp .eq x (tlow T))) else .ok false
+  | .shl, true =>
+    andThen (cCmp .gt x (lit 0)) <| andThen (cCmp .gt y (lit 0)) <|
+    if cCmp .lt y (lit (posDigits T)) then do
+      let k ← cBin .sub (lit (posDigits T)) y
+      let s ← cBin .shr x k
+      pure (cCmp .ne s (lit 0))
+    else .ok true
+  | .shl, false =>
+    if !L.signed then .ok false else
+    andThen (cCmp .lt x (lit 0)) <| andThen (cCmp .gt y (lit 0)) <|
+    if cCmp .lt y (lit (posDigits T)) then do
+      let k ← cBin .sub (lit (posDigits T)) y
+      let s ← cBin .shr x k
+      pure (cCmp .ne s (lit (-1)))
+    else .ok true
+  | _, _ => .ok false
+
+/-- `measure_polarity` : 1, 0, -1 -/
+def measurePolarity (x : TV) : Int :=
+  if cCmp .gt x (zero x.1) then 1 else if cCmp .lt x (zero x.1) then -1 else 0
+
+/-- `overflow_polarity<Operator>` used after an intrinsic reported overflow -/
+def overflowPolarity (op : BinOp) (x y : TV) : Int :=
+  match op with
+  | .add => if cCmp .gt x (zero x.1) && cCmp .gt y (zero y.1) then 1 else -1
+  | .sub => if cCmp .lt y (zero y.1) then 1 else -1
+  | _ => measurePolarity x * measurePolarity y
+
+/-- does `builtin_overflow_operator<Operator, Lhs, Rhs>` exist on this path -/
+def hasBuiltin (path : Path) (op : BinOp) : Bool :=
+  path == .builtin && (op == .add || op == .sub || op == .mul)
+
+/-- tagged binary operator on built-in operands -/
+def checkedBin (path : Path) (tag : OvTag) (op : BinOp) (x y : TV) : Res TV :=
+  if tag == .nat then cBin op x y else
+  let T := binResultTy op x.1 y.1
+  if hasBuiltin path op then
+    let (r, ovf) := builtinOverflow op T x y
+    if !ovf then .ok r
+    else
+      let p := overflowPolarity op x y
+      if p == 1 then react tag true T
+      else if p == -1 then react tag false T
+      else .unreachable "CNL internal error"
+  else do
+    let pos ← isOverflowBin op true x y
+    if pos then react tag true T else do
+      let neg ← isOverflowBin op false x y
+      if neg then react tag false T else cBin op x y
+
+/-- `is_overflow<minus_op, polarity>` -/
+def isOverflowNeg (pos : Bool) (x : TV) : Res Bool :=
+  let T := promote x.1      -- operator_overflow_traits<minus_op, Rhs>::result
+  if pos then
+    -- has_most_negative_number<result>::value && rhs < -traits::max()
+    andThen T.signed <| do
+      let m ← cNeg (tmax T)
+      pure (cCmp .lt x m)
+  else
+    -- !signedness_v<result> && rhs
+    .ok (!T.signed && x.2 != 0)
+
+/-- tagged unary minus on a built-in operand; result type `op_result<minus_op, Operand>` -/
+def checkedNeg (tag : OvTag) (x : TV) : Res TV :=
+  if tag == .nat then cNeg x else
+  let T := promote x.1
+  do
+    let pos ← isOverflowNeg true x
+    if pos then react tag true T else do
+      let neg ← isOverflowNeg false x
+      if neg then react tag false T else cNeg x
+
+/-- `is_overflow_convert` for integer source and destination, then `static_cast` -/
+def checkedConvert (tag : OvTag) (D : IntTy) (x : TV) : Res TV :=
+  let S := x.1
+  let pos := decide (posDigits D < posDigits S) && cCmp .gt x (convert S (tmax D))
+  if pos then react tag true D else
+  let neg := decide (negDigits D < negDigits S) && cCmp .lt x (convert S (tlow D))
+  if neg then react tag false D else .ok (convert D x)
+
+/-! ### generic layer interface used by `CnlModel.Layered` (representations that are built-in
+integers; other representations only under the native tag) -/
+
+def asTV (x : Num) : Option TV :=
+  match x.1 with
+  | .int t => some (t, x.2)
+  | _ => none
+
+/-- the detection path the layered model assumes (the compiler default of the build under test
+is passed by the driver; proofs quantify over both) -/
+def binOpOn (path : Path) (R : RepOps) (tag : OvTag) (op : BinOp) (x y : Num) : Res Num :=
   match tag with
   | .nat => R.bin op x y
-  | _ => .ill "checked overflow tags: not yet modelled"
+  | _ =>
+    match asTV x, asTV y with
+    | some a, some b => liftTV (checkedBin path tag op a b)
+    | _, _ => .ill "checked overflow tags over wrapped representations: see CnlModel.Static"
 
-def unOp (_R : RepOps) (tag : OvTag) (_isNeg : Bool) (plain : Num → Res Num) (x : Num) : Res Num :=
+def binOp (R : RepOps) (tag : OvTag) (op : BinOp) (x y : Num) : Res Num := binOpOn .builtin R tag op x y
+
+def unOp (_R : RepOps) (tag : OvTag) (isNeg : Bool) (plain : Num → Res Num) (x : Num) : Res Num :=
   match tag with
   | .nat => plain x
-  | _ => .ill "checked overflow tags: not yet modelled"
+  | _ =>
+    match asTV x with
+    | some a => if isNeg then liftTV (checkedNeg tag a) else plain x
+    | none => .ill "checked overflow tags over wrapped representations: see CnlModel.Static"
 
 end Cnl.Overflow
